@@ -40,8 +40,20 @@ def documents(draw, max_params=8, chart_doc=False):
     """returns {"segs": [[kind, text], ...]}"""
     segs = []
     n = draw(st.integers(0, max_params))
-    lead = draw(st.integers(0, 11))
-    if lead == 0:
+    lead = draw(st.integers(0, 13))
+    if lead >= 12:
+        # a long preamble (licence banner, blank lines) that pushes the first parameter to / across a multiple of 4096
+        k = draw(st.sampled_from([1, 1, 2]))
+        plen = k * 4096 + draw(st.integers(-12, 4))
+        if lead == 12:
+            width = draw(st.sampled_from([60, 79, 4200]))
+            body = ""
+            while len(body) < plen:
+                body += "// " + "x" * min(width, max(0, plen - len(body) - 4)) + "\n"
+            segs.append(["comment", body[: max(0, plen - 1)] + "\n"])
+        else:
+            segs.append(["blank", "\n" * plen])
+    elif lead == 0:
         segs.append(["stray", draw(st.sampled_from(["junk ", "x\n", "stray"]))])
     elif lead == 1:
         segs.append(["blank", draw(st.sampled_from(BLANK))])
@@ -70,6 +82,18 @@ def documents(draw, max_params=8, chart_doc=False):
             elif kind == 3:
                 segs.append(["comment", "// hi #X:y;\n"])
     return {"segs": segs}
+
+
+@st.composite
+def straddle_segment(draw):
+    """a first parameter padded so that a multi-byte UTF-8 character starts `back` bytes before a buffer-size boundary
+    (4096 / 8192 / 16384): any piecewise decoding or head-block pre-check of the file sees the character cut in two"""
+    target = draw(st.sampled_from([8192, 8192, 8192, 4096, 16384]))
+    ch = draw(st.sampled_from(["é", "ミ", "𠮷", "😀"]))
+    back = draw(st.integers(0, len(ch.encode("utf-8"))))
+    head = "#PAD:"
+    pad = target - back - len(head)
+    return ["param", head + "x" * pad + ch + draw(st.sampled_from(["", "tail", "é"])) + ";\n"]
 
 
 def render(doc, drop_stray=False):
